@@ -7,6 +7,7 @@ effect (including auto-vivification) on the graph.
 from __future__ import annotations
 
 import ast
+import re
 
 from ..absint import IMM, ClassRef, Const, In, Interp
 from ..core import (GRAPH_CLASSES, SHORT, AnalysisError, Program, ancestors,
@@ -492,13 +493,28 @@ def check_matrix_view(prog: Program, res: Result) -> None:
              "enumerate(self.atoms)), loops over the bonds view and sets both "
              "symmetric entries")
     fi = prog.resolve_method("MolGraph", "connectivity_matrix")
+    me = fi.params()[0]
     dcs = [n for n in ast.walk(fi.node) if isinstance(n, ast.Assign)
            and isinstance(n.value, ast.DictComp)
-           and "enumerate(self.atoms)" in norm(n.value.generators[0].iter)]
+           and norm(n.value.generators[0].iter) in (
+               f"enumerate({me}.atoms)", f"enumerate({me}._atom_attrs)")]
     inst = "connectivity_matrix: position dictionary atom -> index"
     if not dcs:
-        res.unrecognised("R-VIEW-AGREE", inst, fi.loc(), "no dictionary over "
-                         "enumerate(self.atoms)")
+        other = [n for n in ast.walk(fi.node) if isinstance(n, ast.Assign)
+                 and isinstance(n.value, ast.DictComp)
+                 and re.fullmatch(rf"enumerate\({me}\.(\w+)\)",
+                                  norm(n.value.generators[0].iter))]
+        if other:
+            src = norm(other[0].value.generators[0].iter)
+            res.bad("R-VIEW-AGREE", f"connectivity_matrix: {src}",
+                    fi.loc(other[0]), f"{inst}: rows / columns are numbered "
+                    f"by `{src}`, not by the atoms view; the two orders "
+                    "differ after subgraph() / relabelling, so the matrix no "
+                    "longer lines up with atoms / atom_types",
+                    instance=inst)
+        else:
+            res.unrecognised("R-VIEW-AGREE", inst, fi.loc(), "no dictionary "
+                             "over enumerate(self.atoms)")
         return
     dc = dcs[0].value
     tgt = dc.generators[0].target
